@@ -1,6 +1,7 @@
 import Fpdec.Kernels.Consts
 import Fpdec.Kernels.IntConv
 import Fpdec.Lemmas.Unary
+import Fpdec.Lemmas.Cmp
 import Fpdec.Props.C14_Sites
 
 /-!
@@ -97,5 +98,51 @@ example : intoInt IntTy.i8 (fromInt (-128)) = .ok (.ok (-128)) ∧ intoInt IntTy
     intoInt IntTy.i128 (fromInt I128_MIN) = .ok (.ok I128_MIN) ∧ intoInt IntTy.u8 (fromInt 256) = .ok (.error .outOfRange) := by decide
 example : (tryFromU128 12345678901234567890123).map (intoInt IntTy.u128) = some (.ok (.ok 12345678901234567890123)) ∧
     tryFromU128 (2 ^ 127) = none := by decide
+
+/-- the specification of `T::try_from(d)` depends only on the value `a / 10^p` of the Decimal, not on its representation -/
+theorem spec_into_int_of_equal_values (t : IntTy) (a : Int) (p : Nat) (b : Int) (q : Nat) (h : Spec.cmp a p b q = .eq) :
+    Spec.intoInt t a p = Spec.intoInt t b q := by
+  rw [spec_cmp_eq_iff] at h
+  have hP : (0 : Int) < (10 : Int) ^ p := tenPow_pos p
+  have hQ : (0 : Int) < (10 : Int) ^ q := tenPow_pos q
+  unfold Spec.intoInt
+  simp only
+  generalize (10 : Int) ^ p = P at h hP
+  generalize (10 : Int) ^ q = Q at h hQ
+  have key : ∀ (a b P Q v : Int), 0 < P → a * Q = b * P → a = v * P → b = v * Q := by
+    intro a b P Q v hP h hv
+    subst hv
+    have e : v * Q * P = b * P := by rw [← h]; ring
+    exact (Int.eq_of_mul_eq_mul_right (Int.ne_of_gt hP) e).symm
+  by_cases hr : a % P = 0
+  · have hv : a = a / P * P := (Int.ediv_mul_cancel_of_emod_eq_zero hr).symm
+    have hb : b = a / P * Q := key a b P Q _ hP h hv
+    generalize a / P = v at hv hb
+    subst hv hb
+    simp [Int.mul_emod_left, Int.mul_ediv_cancel v (Int.ne_of_gt hQ)]
+  · have hr' : b % Q ≠ 0 := by
+      intro hb
+      have hv : b = b / Q * Q := (Int.ediv_mul_cancel_of_emod_eq_zero hb).symm
+      have ha : a = b / Q * P := key b a Q P _ hQ h.symm hv
+      apply hr; rw [ha]; exact Int.mul_emod_left _ _
+    simp [hr, hr']
+
+/-- `T::try_from(d)` depends only on the value: two Decimals of the domain with the same value (any two representations, e.g.
+    `(a, p)` and `(a·10^k, p+k)`) give the same result — the same integer or the same error kind — for every target type -/
+theorem into_int_of_equal_values (t : IntTy) (ht : IsTargetTy t) (x y : Dec) (hx : Dom x) (hy : Dom y)
+    (h : Spec.cmp x.coeff x.nfrac y.coeff y.nfrac = .eq) : intoInt t x = intoInt t y := by
+  rw [into_int_spec t ht x hx, into_int_spec t ht y hy, spec_into_int_of_equal_values t _ _ _ _ h]
+
+/-- … in particular trailing fractional zeros do not matter -/
+theorem into_int_scaled (t : IntTy) (ht : IsTargetTy t) (a : Int) (p k : Nat) (hx : Dom ⟨a, p⟩)
+    (hy : Dom ⟨a * (10 : Int) ^ k, p + k⟩) : intoInt t ⟨a * (10 : Int) ^ k, p + k⟩ = intoInt t ⟨a, p⟩ := by
+  apply into_int_of_equal_values t ht _ _ hy hx
+  rw [spec_cmp_eq_iff]
+  show a * (10 : Int) ^ k * (10 : Int) ^ p = a * (10 : Int) ^ (p + k)
+  rw [Int.pow_add]; ring
+
+example : intoInt IntTy.i16 ⟨1200, 2⟩ = intoInt IntTy.i16 ⟨12, 0⟩ ∧ intoInt IntTy.u8 ⟨-3000, 3⟩ = intoInt IntTy.u8 ⟨-3, 0⟩ ∧
+    intoInt IntTy.i64 ⟨150, 2⟩ = intoInt IntTy.i64 ⟨15, 1⟩ ∧ intoInt IntTy.i64 ⟨15, 1⟩ = .ok (.error .notAnInt) ∧
+    Spec.cmp 1200 2 12 0 = .eq := by decide
 
 end Fpdec.Props.C14
